@@ -268,7 +268,7 @@ func TestVerifC05Content(t *testing.T) {
 	for _, codec := range []compression.Codec{nil, snappy.New()} {
 		for _, queue := range []int{1, 4, 8} {
 			name := fmt.Sprintf("codec=%v/queue=%d", codec != nil, queue)
-			synctest.Test(t, func(t *testing.T) {
+			verifsim.Bubble(t, func(t *testing.T) {
 				type sentCall struct {
 					check func(req *verifsim.Request, param proto.Message, kvs []verifsim.KV) string
 					desc  string
